@@ -87,7 +87,7 @@ def generate(rng):
                         "col": rng.randint(0, 12), "strike": K})
         elif k == "add_clause":
             c = gen_clauses(rng, 1)[0]
-            c["name"] = "x%d" % ncl
+            c["name"] = "%s%d" % (rng.choice(["x", "b", "k", "aa", "zz"]), ncl)
             ncl += 1
             ops.append({"op": "add_clause", "derivative": rng.choice(ids), "clause": c})
         elif k == "cast":
